@@ -11,6 +11,7 @@ from mir_eval import (alignment, beat, chord, hierarchy, key, melody, multipitch
 from checks.c03 import RECIPES
 
 PROPERTY_ID = "C14"
+SCALE = (2, 3)   # budget multiplier (quick, thorough) applied to the n=(...) of every generated sub-property
 LEVEL = "fault_enumeration"
 RULE = ("valid family: the task generators of C01 (empty sides where a score is defined, single items, duplicate times, estimates starting "
         "earlier / running longer / disjoint, boundaries on the reference's start or end, window == frame_size, one frame, identical) through "
